@@ -343,7 +343,69 @@ func runCache(tier string, seed int64, summaryPath, outPath string) {
 	if h != nil {
 		h.Close()
 	}
-	sum.Exhaustive = "sequential part: seeded op sequences; concurrent part: phased rounds (16 savers, then 8 removers), mixed rounds (saver + remover + 6 polling readers) and duplicate rounds (one transaction saved by 8 goroutines) on one receiver (search, not proof)"
+	// re-save rounds: a transaction that is already awaiting is delivered again (gossip re-delivery) while its receiver removes it and
+	// readers hold the lock: every sequential order ends with "stored and listed once for both parties" or "gone from everywhere"
+	{
+		h, _ := cache.New(32*10_000, 128)
+		for round := 0; round < nConc*2; round++ {
+			t := transaction.Transaction{CreatedAt: time.Now(), IssuerAddress: addrs[2], ReceiverAddress: addrs[3], Subject: "r", Data: []byte{1}, Spice: spice.Melange{Currency: 1}}
+			t.Hash[0], t.Hash[1], t.Hash[2], t.Hash[3] = 1, 0x55, byte(round), byte(round>>8)
+			h.SaveAwaitedTransaction(&t)
+			var wg sync.WaitGroup
+			start := make(chan struct{})
+			stop := make(chan struct{})
+			var rg sync.WaitGroup
+			for r := 0; r < 3; r++ {
+				rg.Add(1)
+				go func(r int) {
+					defer rg.Done()
+					<-start
+					for {
+						select {
+						case <-stop:
+							return
+						default:
+							h.ReadTransactions(addrs[2+r%2])
+						}
+					}
+				}(r)
+			}
+			wg.Add(2)
+			go func() { defer wg.Done(); <-start; cp := t; h.SaveAwaitedTransaction(&cp) }()
+			go func() { defer wg.Done(); <-start; h.RemoveAwaitedTransaction(t.Hash, addrs[3]) }()
+			close(start)
+			wg.Wait()
+			close(stop)
+			rg.Wait()
+			count := func(a string) int {
+				trxs, _ := h.ReadTransactions(a)
+				n := 0
+				for _, x := range trxs {
+					if x.Hash == t.Hash {
+						n++
+					}
+				}
+				return n
+			}
+			li, lr := count(addrs[2]), count(addrs[3])
+			cp := t
+			stored := errors.Is(h.SaveAwaitedTransaction(&cp), cache.ErrTrxAlreadyExists)
+			want := 0
+			if stored {
+				want = 1
+			}
+			if li != want || lr != want {
+				viol("concurrent-lost-or-invented-entry", map[string]any{"round": round, "kind": "re-save racing with removal", "stored": stored, "listed_for_issuer": li, "listed_for_receiver": lr})
+			}
+			if !stored { // the probing save above stored it again: clean up for the next round
+				h.RemoveAwaitedTransaction(t.Hash, addrs[3])
+			}
+			sum.Evaluations++
+			sum.Kinds["concurrent.resave_round"]++
+		}
+		h.Close()
+	}
+	sum.Exhaustive = "sequential part: seeded op sequences; concurrent part: phased rounds (16 savers, then 8 removers), mixed rounds (saver + remover + 6 polling readers) duplicate rounds (one transaction saved by 8 goroutines) and re-save rounds (re-delivery racing with the receiver's removal under polling readers) on one receiver (search, not proof)"
 	var b bytes.Buffer
 	b.WriteString("From Coq Require Import List Arith NArith Bool.\nFrom Verif Require Import Cache CheckCache.\nImport ListNotations.\nLocal Open Scope N_scope.\n")
 	b.WriteString("Definition traces : list (list cobs) := [\n" + strings.Join(traces, ";\n") + "].\n")
